@@ -51,6 +51,10 @@ type rpcRig struct {
 	rawCode codes.Code
 	rawErr  error
 	seq     int
+	// cancelAfterReply, when set, is called once the reply has arrived and
+	// before the library's client interceptor sees it.
+	cancelAfterReply func()
+	cancelMode       bool
 }
 
 func newRig() (*rpcRig, error) {
@@ -63,6 +67,12 @@ func newRig() (*rpcRig, error) {
 		err := invoker(ctx, method, req, reply, cc, opts...)
 		rig.rawErr = err
 		rig.rawCode = status.Code(err)
+		// environment answer: the caller's context is done by the time the
+		// reply is back with the library's interceptor (a fan-out cancelled
+		// by its first failure, a deadline that expires right after)
+		if rig.cancelAfterReply != nil {
+			rig.cancelAfterReply()
+		}
 		return err
 	}
 	conn, err := grpc.Dial("",
@@ -91,14 +101,28 @@ func (rig *rpcRig) call(e error) (error, codes.Code, error) {
 	rig.srv.mu.Unlock()
 	ctx, cancel := context.WithTimeout(context.Background(), 30*time.Second)
 	defer cancel()
+	if rig.cancelMode {
+		rig.cancelAfterReply = cancel
+		defer func() { rig.cancelAfterReply = nil }()
+	}
 	_, err := rig.client.Echo(ctx, &egrpc.EchoRequest{Text: key})
 	return err, rig.rawCode, rig.rawErr
 }
 
+// c20Modes: every term is sent with a live context; terms of depth <= 2
+// (and the hand-picked ones of depth <= 3) also with a context that is
+// done by the time the reply reaches the library's client interceptor.
+func c20Modes(t *tm.Term) []bool {
+	if t.Depth() <= 2 {
+		return []bool{false, true}
+	}
+	return []bool{false}
+}
+
 func runC20(c *core.Ctx, r *core.Result) {
-	p := plan{fullDepth: 3, coreDepth: 4, strDepth: 2, alphabet: tm.REG}
+	p := plan{dupDepth: 2, fullDepth: 3, coreDepth: 4, strDepth: 2, alphabet: tm.REG}
 	if c.Thorough() {
-		p = plan{fullDepth: 4, coreDepth: 5, strDepth: 2, pairDepth: 1, alphabet: tm.REG}
+		p = plan{dupDepth: 2, fullDepth: 4, coreDepth: 5, strDepth: 2, pairDepth: 1, alphabet: tm.REG}
 	}
 	r.Bounds = p.String() + "; one RPC per term through grpc.Server+UnaryServerInterceptor and a client with UnaryClientInterceptor over memlistener; plus a message-size sweep (every ASCII padding length up to the bound followed by 2/3/4-byte runes)"
 	r.Rule = "state = (term, RPC); non-trivial = the handler's error is not already a gRPC status error (so it is encoded into the status details and decoded by the client interceptor)"
@@ -113,59 +137,89 @@ func runC20(c *core.Ctx, r *core.Result) {
 	if got, code, _ := rig.call(nil); got != nil || code != codes.OK {
 		r.Violate("nil-handler-error", fmt.Sprintf("a nil handler error arrives as %v (code %v)", got, code), nil)
 	}
+	encoded := false
+	// one evaluates one term with one RPC (rig.cancelMode chosen by the caller).
+	one := func(t *tm.Term) string {
+		e := t.Build()
+		got, rawCode, rawErr := rig.call(e)
+		if got == nil {
+			return fail("lost", "the handler returned %T but the client got nil", e)
+		}
+		if _, isStatus := e.(interface{ GRPCStatus() *status.Status }); isStatus {
+			// the handler's error itself is a gRPC status error: it
+			// passes through unchanged (a tree that merely contains one
+			// is an ordinary error and must arrive like a direct transfer)
+			st, _ := status.FromError(e)
+			gs, ok := status.FromError(got)
+			if !ok || gs.Code() != st.Code() || gs.Message() != st.Message() {
+				return fail("status-passthrough", "a handler error that already is a gRPC status (%v %q) arrives as %T %q", st.Code(), st.Message(), got, got.Error())
+			}
+			return ""
+		}
+		encoded = true
+		// the code attached with WrapWithGrpcCode, from the term's model:
+		// the outermost code layer on the visible single-cause chain
+		wantCode := codes.Unknown
+		for _, n := range t.Model().Spine() {
+			if n.GRPC >= 0 {
+				wantCode = codes.Code(n.GRPC)
+				break
+			}
+		}
+		if got := extgrpc.GetGrpcCode(e); got != wantCode {
+			return fail("getgrpccode", "GetGrpcCode of the handler's error is %v, the code attached on its cause chain is %v", got, wantCode)
+		}
+		if rawCode != wantCode {
+			return fail("status-code", "the gRPC status code on the wire is %v, the error carries %v (raw error: %v)", rawCode, wantCode, rawErr)
+		}
+		direct, _ := tm.HopK(e)
+		sd, sg := tm.ShapeOf(direct), tm.ShapeOf(got)
+		if d := sd.Diff(sg); d != "" {
+			return fail("text|text@"+typeTail(culprit(sd, sg)), "the error received through the interceptors differs from the direct transfer: %s", d)
+		}
+		if fmt.Sprint(sd.Types()) != fmt.Sprint(sg.Types()) {
+			return fail("types", "Go types differ from the direct transfer: %v vs %v", sg.Types(), sd.Types())
+		}
+		refs := tm.Nodes(e)
+		if a, b := isVec(got, refs), isVec(direct, refs); a != b {
+			return fail("is", "Is vector differs from the direct transfer: %s vs %s", a, b)
+		}
+		if d := tm.Annotations(direct).Diff(tm.Annotations(got)); d != "" {
+			return fail("annotations:"+stripIdx(tm.Annotations(direct).FirstKey(tm.Annotations(got))), "annotations differ from the direct transfer: %s", short(d))
+		}
+		if a, b := fmt.Sprintf("%+v", errors.Formattable(got)), fmt.Sprintf("%+v", errors.Formattable(direct)); a != b {
+			return fail("verbose", "%%+v differs from the direct transfer:\n%s\n-- vs --\n%s", short(a), short(b))
+		}
+		// the reference of the statement is EncodeError/DecodeError as
+		// such: also without the protobuf marshalling in between
+		if t.Depth() > 2 && t.Depth() < 4 {
+			return "" // (the bulk of the depth-3 space is compared with the marshalled transfer only)
+		}
+		mem := errors.DecodeError(tm.Bg(), errors.EncodeError(tm.Bg(), e))
+		if a, b := fmt.Sprintf("%+v", errors.Formattable(got)), fmt.Sprintf("%+v", errors.Formattable(mem)); a != b {
+			return fail("verbose-inmem", "%%+v differs from the in-memory EncodeError/DecodeError transfer:\n%s\n-- vs --\n%s", short(a), short(b))
+		}
+		if d := tm.Annotations(mem).Diff(tm.Annotations(got)); d != "" {
+			return fail("annotations-inmem:"+stripIdx(tm.Annotations(mem).FirstKey(tm.Annotations(got))), "annotations differ from the in-memory transfer: %s", short(d))
+		}
+		return ""
+	}
 	visit := func(t *tm.Term) {
-		encoded := false
+		if strings.Contains(t.String(), "WrapWithGrpcCode#0(") {
+			return // a non-nil error cannot travel with code OK (DESIGN.md §4.4)
+		}
+		encoded = false
 		report(r, t, nil, func(t *tm.Term) string {
 			return guarded("C20", func() string {
-				e := t.Build()
-				got, rawCode, rawErr := rig.call(e)
-				if got == nil {
-					return fail("lost", "the handler returned %T but the client got nil", e)
-				}
-				if _, isStatus := e.(interface{ GRPCStatus() *status.Status }); isStatus {
-					// the handler's error itself is a gRPC status error: it
-					// passes through unchanged (a tree that merely contains one
-					// is an ordinary error and must arrive like a direct transfer)
-					st, _ := status.FromError(e)
-					gs, ok := status.FromError(got)
-					if !ok || gs.Code() != st.Code() || gs.Message() != st.Message() {
-						return fail("status-passthrough", "a handler error that already is a gRPC status (%v %q) arrives as %T %q", st.Code(), st.Message(), got, got.Error())
+				defer func() { rig.cancelMode = false }()
+				for _, cm := range c20Modes(t) {
+					rig.cancelMode = cm
+					if m := one(t); m != "" {
+						if cm {
+							return "ctx-done:" + m
+						}
+						return m
 					}
-					return ""
-				}
-				encoded = true
-				// the code attached with WrapWithGrpcCode, from the term's model:
-				// the outermost code layer on the visible single-cause chain
-				wantCode := codes.Unknown
-				for _, n := range t.Model().Spine() {
-					if n.GRPC >= 0 {
-						wantCode = codes.Code(n.GRPC)
-						break
-					}
-				}
-				if got := extgrpc.GetGrpcCode(e); got != wantCode {
-					return fail("getgrpccode", "GetGrpcCode of the handler's error is %v, the code attached on its cause chain is %v", got, wantCode)
-				}
-				if rawCode != wantCode {
-					return fail("status-code", "the gRPC status code on the wire is %v, the error carries %v (raw error: %v)", rawCode, wantCode, rawErr)
-				}
-				direct, _ := tm.HopK(e)
-				sd, sg := tm.ShapeOf(direct), tm.ShapeOf(got)
-				if d := sd.Diff(sg); d != "" {
-					return fail("text|text@"+typeTail(culprit(sd, sg)), "the error received through the interceptors differs from the direct transfer: %s", d)
-				}
-				if fmt.Sprint(sd.Types()) != fmt.Sprint(sg.Types()) {
-					return fail("types", "Go types differ from the direct transfer: %v vs %v", sg.Types(), sd.Types())
-				}
-				refs := tm.Nodes(e)
-				if a, b := isVec(got, refs), isVec(direct, refs); a != b {
-					return fail("is", "Is vector differs from the direct transfer: %s vs %s", a, b)
-				}
-				if d := tm.Annotations(direct).Diff(tm.Annotations(got)); d != "" {
-					return fail("annotations:"+stripIdx(tm.Annotations(direct).FirstKey(tm.Annotations(got))), "annotations differ from the direct transfer: %s", short(d))
-				}
-				if a, b := fmt.Sprintf("%+v", errors.Formattable(got)), fmt.Sprintf("%+v", errors.Formattable(direct)); a != b {
-					return fail("verbose", "%%+v differs from the direct transfer:\n%s\n-- vs --\n%s", short(a), short(b))
 				}
 				return ""
 			})
